@@ -36,3 +36,35 @@ def int_vars(names, lo=0, hi=255):
 
 def real_vars(names):
     return {n: z3.Real(n) for n in names}
+
+
+def _slice_worker(job):
+    builder_mod, builder_fn, overrides, i, n = job
+    import importlib
+    from .program import Program
+    prog = Program(overrides=overrides or None)
+    b = getattr(importlib.import_module(builder_mod), builder_fn)
+    try:
+        cp, sp, z, extra = b(prog)
+    except (ring.Unsupported, KeyError, ZeroDivisionError) as e:
+        return {'undecided': str(e)}
+    mine = cp[i::n]
+    pairs, eq, diffs = ring.conform(mine, sp, z, 'slice')
+    rng_bad = []
+    if extra:
+        for pc, v in mine:
+            for nm, g in extra(v):
+                r = z.valid(pc, g)
+                if r != 'proved': rng_bad.append({'range': nm, 'result': r, 'path': [ring.show_cond(c) for c in pc][-4:]})
+    return {'code_paths': len(cp), 'spec_paths': len(sp), 'pairs': pairs, 'equal': eq, 'diffs': diffs[:2], 'range_bad': rng_bad[:3], 'n_mine': len(mine)}
+
+
+def conform_parallel(builder_mod, builder_fn, overrides=None, n=16):
+    """builder(prog) -> (code_paths, spec_paths, zmap, range_goals(value)->[(name, cond)] or None); code paths are sliced over n processes"""
+    import multiprocessing as mp
+    with mp.get_context('fork').Pool(n) as pool:
+        res = pool.map(_slice_worker, [(builder_mod, builder_fn, overrides, i, n) for i in range(n)])
+    und = [r['undecided'] for r in res if 'undecided' in r]
+    if und: return {'undecided': und[0]}
+    return {'code_paths': res[0]['code_paths'], 'spec_paths': res[0]['spec_paths'], 'pairs': sum(r['pairs'] for r in res), 'equal': sum(r['equal'] for r in res),
+            'diffs': [d for r in res for d in r['diffs']][:3], 'range_bad': [d for r in res for d in r['range_bad']][:3]}
